@@ -39,6 +39,13 @@ def run_cli(argv: list, cwd: Optional[str] = None) -> CliResult:
                 rc = 0
             except SystemExit as exc:
                 rc = exc.code if isinstance(exc.code, int) else (0 if exc.code is None else 1)
+            except KeyboardInterrupt:
+                raise
+            except Exception as exc:       # on a command line: a traceback and exit status 1
+                import traceback
+
+                rc = f"uncaught:{type(exc).__name__}"
+                err.write("".join(traceback.format_exception_only(type(exc), exc)))
     finally:
         os.chdir(old_cwd)
         boot.silence()
